@@ -2489,13 +2489,18 @@ FROM (
             cte = CTEBuilder()
             cte.cte("_sd_a", a_sql, materialized=True)
             cte.cte("_sd_b", b_sql, materialized=True)
-            return cte.select(
-                f"(SELECT a.* FROM _sd_a AS a "
+            # UNION ALL is positional: project both sides by name in the first operand's
+            # component order (the operands may declare their components in different orders).
+            col_list = ", ".join(quote_name(c) for c in first_ds.components)
+            symdiff_sql = cte.select(
+                f"(SELECT {col_list} FROM _sd_a AS a "
                 f"ANTI JOIN _sd_b AS b ON {on_clause}) "
                 f"UNION ALL "
-                f"(SELECT c.* FROM _sd_b AS c "
+                f"(SELECT {col_list} FROM _sd_b AS c "
                 f"ANTI JOIN _sd_a AS d ON {on_clause_rev})"
             )
+            # Wrapped so that the result starts with SELECT and can itself be an operand.
+            return f"SELECT * FROM ({symdiff_sql}) AS _sd"
 
         return registry.sql(op, *child_sqls)
 
